@@ -5,6 +5,7 @@
 (* A string is a sequence of symbols (one symbol = one character class,    *)
 (* concretised by the Go driver):                                          *)
 (*   q '   d "   b `   k \   D $   E E   m -   s /   a *   n LF   r CR     *)
+(*   P1 __STR_1__                                                          *)
 (*   W Z (upper case)   9 1 (digit)   U _ (underscore)                      *)
 (*   _ TAB   w x   u e-acute (2 bytes, >=0x80)   ; ;   P __STR_0__         *)
 (*   J __IDENT_0__   Macros: space-padded plain code (keywords, names,     *)
@@ -47,7 +48,7 @@ VARIABLES tid, idx, s, left, fixedAt
 vars == <<tid, idx, s, left, fixedAt>>
 
 -----------------------------------------------------------------------------
-WS == {"_", "n", "r"}
+WS == {"_", "n", "r", "~"}       \* TAB, LF, CR, space (0x20)
 Cls(ident) == IF ident THEN "I" ELSE "S"
 Nx(x, i) == IF i < Len(x) THEN x[i+1] ELSE "$end"
 Pv(x, i) == IF i > 1 THEN x[i-1] ELSE "$start"
@@ -55,9 +56,9 @@ Rep(n, v) == [t \in 1..n |-> v]
 
 \* identifier characters: DuckDB (letters, digits, _, bytes >= 0x80) / arc's isIdentifierByte on the LAST byte
 \* W = upper-case letter (Z), 9 = digit (1), U = underscore
-DIdent(c) == c \in {"w", "W", "9", "U", "E", "P", "J", "u"} \cup Paths
-AIdent(c) == c \in {"w", "W", "9", "U", "E", "P", "J"} \cup Paths
-Width(c)  == CASE c = "u" -> 2 [] c = "P" -> 9 [] c = "J" -> 11
+DIdent(c) == c \in {"w", "W", "9", "U", "E", "P", "P1", "J", "u"} \cup Paths
+AIdent(c) == c \in {"w", "W", "9", "U", "E", "P", "P1", "J"} \cup Paths
+Width(c)  == CASE c = "u" -> 2 [] c \in {"P", "P1"} -> 9 [] c = "J" -> 11
                [] c \in Macros \cup Paths -> 8 [] OTHER -> 1
 
 Role == [q |-> [o |-> "q.o", i |-> "q.i", e |-> "q.e", c |-> "q.c", b |-> "q.b"],
@@ -281,7 +282,7 @@ Flat(a, els, i, acc) == IF i > Len(els) THEN acc ELSE Flat(a, els, i+1, acc \o E
 (* ALL occurrences.  "P" typed by the user is the text of placeholder 0 of   *)
 (* string class, "J" of identifier class.                                    *)
 KeyOf(masks, e) == IF e.k >= 0 THEN <<Cls(masks[e.k+1].ident), e.k>>
-                   ELSE IF e.sym = "P" THEN <<"S", 0>> ELSE IF e.sym = "J" THEN <<"I", 0>> ELSE <<"none", 0>>
+                   ELSE IF e.sym = "P" THEN <<"S", 0>> ELSE IF e.sym = "P1" THEN <<"S", 1>> ELSE IF e.sym = "J" THEN <<"I", 0>> ELSE <<"none", 0>>
 Expand(orig) == [t \in 1..Len(orig) |-> [sym |-> orig[t], lo |-> 0, hi |-> 0, k |-> -1]]
 RECURSIVE ReplAll(_, _, _, _, _), Unmask(_, _, _)
 ReplAll(masks, els, key, orig, all) ==
@@ -391,6 +392,10 @@ Analysis ==
         dlive |-> LiveIn(d.r, DuckLex(bare).r) /\ d.end \in {"code", "line"},
         avis  |-> LiveIn(aP.r, ArcNorm(bare, "P").r),
         avisI |-> IF hasDB THEN visI ELSE LiveIn(aP.r, ArcNorm(bare, "P").r),
+        \* getTransformedSQLForParallel takes the header-database single-table fast path (no CTE handling)
+        \* unless the text contains "with " -- WITH followed by TAB/LF is not seen
+        shape |-> IF \E i \in 1..(Len(s)-1) : s[i] = "K:with" /\ s[i+1] \in {"_", "n", "r"}
+                  THEN "cte-keyword-not-followed-by-space" ELSE "none",
         labI  |-> IF hasDB /\ ~visI THEN DivClass(xs, drF, aI.r) ELSE "none"]
 
 \* the candidate property: arc's view of the text equals DuckDB's (violated by the model as written --
@@ -409,7 +414,7 @@ Sane ==
     /\ \A e \in 1..Len(a.els) : a.els[e].lo <= a.els[e].hi /\ (e > 1 => a.els[e].lo = a.els[e-1].hi + 1)
     /\ (Len(s) > 0 => a.els[1].lo = 1 /\ a.els[Len(a.els)].hi = Len(s))
     \* without a placeholder look-alike in the input, unmask(mask(s)) = s in the model
-    /\ ((\A i \in 1..Len(s) : s[i] \notin {"P", "J"}) => RoundTrip(s, a))
+    /\ ((\A i \in 1..Len(s) : s[i] \notin {"P", "P1", "J"}) => RoundTrip(s, a))
 
 EmitInv ==
     (Complete /\ EmitMode # "none") =>
@@ -435,6 +440,7 @@ AlphaLineQ   == {"m","n","r","q","w"}
 AlphaPh      == {"P","q","w","_"}
 InBlock      == <<"s","a","H","a","s">>          \* a block comment around the hole: nesting witnesses that DuckDB can parse
 AfterTag9    == <<"D","w","9","D","H">>          \* after a dollar-quote opener whose tag ends in a digit
+AfterTagU    == <<"D","U","W","D","H">>          \* after a dollar-quote opener whose tag starts with an underscore
 AfterIdent   == <<"d","w","d","H">>              \* after the quoted identifier "z": repeats, case variants
 AfterLit     == <<"q","w","q","H">>              \* after the literal 'z'
 AfterUTag    == <<"D","u","D","H">>              \* after a dollar-quote opener with a non-ASCII tag
@@ -450,6 +456,7 @@ JobsQuick == << [tpl |-> L, alpha |-> AlphaAll,     max |-> 3],
                 [tpl |-> L, alpha |-> {"u","E","q","w"}, max |-> 4],
                 [tpl |-> AfterTag9, alpha |-> {"D","9","w","q"}, max |-> 4],      \* $z1$ ... : digits in a dollar tag
                 [tpl |-> L, alpha |-> {"D","9","U","W","q"}, max |-> 5],
+                [tpl |-> AfterTagU, alpha |-> {"D","U","W","m"}, max |-> 6],       \* $_Z$ ... with NO other quote character
                 [tpl |-> AfterIdent, alpha |-> {"d","w","W","_"}, max |-> 4],    \* "z" then the same / case-different identifier
                 [tpl |-> AfterLit,   alpha |-> {"q","w","W","_"}, max |-> 4] >>
 JobsThorough == << [tpl |-> L, alpha |-> AlphaAll,     max |-> 4],
@@ -466,12 +473,13 @@ JobsThorough == << [tpl |-> L, alpha |-> AlphaAll,     max |-> 4],
                    [tpl |-> L, alpha |-> AlphaPh \cup {"d", "J"}, max |-> 5],
                    [tpl |-> AfterTag9, alpha |-> {"D","9","w","q","U"}, max |-> 5],
                    [tpl |-> L, alpha |-> {"D","9","U","W","q","w"}, max |-> 6],
+                   [tpl |-> AfterTagU, alpha |-> {"D","U","W","m","s","a"}, max |-> 6],
                    [tpl |-> AfterIdent, alpha |-> {"d","w","W","_","q"}, max |-> 6],
                    [tpl |-> AfterLit,   alpha |-> {"q","w","W","_","d"}, max |-> 6] >>
 
 (* C14: statement templates.  The payload (a file-reading table function, a string in table position, *)
 (* a foreign db.table) is fixed; the holes are filled with lexical disguises.                          *)
-MacrosC14 == {"K:sel", "K:one", "K:tagrp", "K:close", "K:tagfrom", "K:tagdbt", "K:end", "K:tagcj", "K:b"}
+MacrosC14 == {"K:with", "K:cte", "K:tagwhere", "K:inj", "K:cmt", "K:trim", "K:as", "K:btag", "K:join", "K:fcpu", "K:subq", "K:subend", "K:sel", "K:one", "K:tagrp", "K:close", "K:tagfrom", "K:tagdbt", "K:end", "K:tagcj", "K:b"}
 PathsC14  == {"F:foreign"}
 TBrp  == <<"K:sel", "H", "K:tagrp", "q", "F:foreign", "q", "K:close">>            \* SELECT <lit> , tag FROM read_parquet( '<file>' )
 TArp  == <<"K:sel", "H", "K:one", "K:tagrp", "q", "F:foreign", "q", "K:close">>   \* SELECT <comment> 1 , tag FROM read_parquet( '<file>' )
@@ -483,6 +491,17 @@ TBcj  == <<"K:sel", "H", "K:tagcj", "q", "F:foreign", "q", "K:b">>              
 TDsc  == <<"K:sel", "H", "K:tagfrom", "D", "w", "9", "D", "F:foreign", "D", "w", "9", "D", "K:end">>   \* FROM $z1$<file>$z1$
 TDsc2 == <<"K:sel", "H", "K:tagfrom", "D", "U", "W", "D", "F:foreign", "D", "U", "W", "D", "K:end">>   \* FROM $_Z$<file>$_Z$
 TDrp  == <<"K:sel", "H", "K:tagrp", "D", "w", "9", "D", "F:foreign", "D", "w", "9", "D", "K:close">>   \* read_parquet ( $z1$<file>$z1$ )
+\* comma join with the text `trim(` (a FROM-keyword builtin followed by a parenthesis) available to the hole
+TAcj  == <<"K:sel", "H", "K:one", "K:tagcj", "q", "F:foreign", "q", "K:b">>       \* SELECT <comment> 1 , b.tag FROM allowed.cpu a , '<file>' b
+TQcj  == <<"K:sel", "K:one", "K:as", "H", "K:tagcj", "q", "F:foreign", "q", "K:b">>   \* SELECT 1 AS <quoted alias> , b.tag FROM ...
+\* foreign db.measurement in JOIN / scalar-subquery position, the keyword set off by any whitespace class
+TJoin == <<"K:sel", "K:btag", "H", "K:join", "H", "K:fcpu">>     \* SELECT b.tag FROM allowed.cpu a<ws>JOIN<ws>foreign.cpu b ON true
+TSubq == <<"K:sel", "K:subq", "H", "K:subend">>                  \* SELECT ( SELECT max(tag) FROM<ws>foreign.cpu ) AS t FROM allowed.cpu
+WsAll == {"~", "_", "n"}
+\* a CTE named like a measurement; posted with x-arc-database set to the FOREIGN database
+TCte  == <<"K:with", "H", "K:cte">>                              \* WITH<ws>cpu AS ( SELECT 1 AS one ) SELECT tag FROM cpu
+\* a literal holding placeholder-shaped text before a second literal that holds a replacement scan
+TPh   == <<"K:sel", "q", "H", "q", "K:tagwhere", "q", "K:inj", "D", "D", "F:foreign", "D", "D", "K:cmt", "q">>
 TBdb  == <<"K:sel", "H", "K:tagdbt">>                                             \* ... FROM foreign.cpu
 TAdb  == <<"K:sel", "H", "K:one", "K:tagdbt">>
 LitA  == {"q","k","m","E","d","D","u"}
@@ -502,6 +521,12 @@ JobsC14Quick == << [tpl |-> TBrp,  alpha |-> LitA, max |-> 4],
                    [tpl |-> TDsc,  alpha |-> {"q","k","9"}, max |-> 3],
                    [tpl |-> TDsc2, alpha |-> {"q","k","9"}, max |-> 3],
                    [tpl |-> TDrp,  alpha |-> {"q","k","9"}, max |-> 3],
+                   [tpl |-> TAcj,  alpha |-> {"s","a","K:trim","q"}, max |-> 5],
+                   [tpl |-> TQcj,  alpha |-> {"d","K:trim","w"}, max |-> 4],
+                   [tpl |-> TCte,  alpha |-> WsAll, max |-> 2],
+                   [tpl |-> TPh,   alpha |-> {"P", "P1", "w"}, max |-> 2],
+                   [tpl |-> TJoin, alpha |-> WsAll, max |-> 3],
+                   [tpl |-> TSubq, alpha |-> WsAll, max |-> 2],
                    [tpl |-> TBdb,  alpha |-> {"q","k","m","E","d"}, max |-> 4],
                    [tpl |-> TAdb,  alpha |-> {"s","a","q","m","n"}, max |-> 5] >>
 JobsC14Thorough == << [tpl |-> TBrp,  alpha |-> LitA \cup {"b", "P"}, max |-> 4],
@@ -518,6 +543,12 @@ JobsC14Thorough == << [tpl |-> TBrp,  alpha |-> LitA \cup {"b", "P"}, max |-> 4]
                       [tpl |-> TDsc,  alpha |-> {"q","k","9","D","w"}, max |-> 4],
                       [tpl |-> TDsc2, alpha |-> {"q","k","9","D","w"}, max |-> 4],
                       [tpl |-> TDrp,  alpha |-> {"q","k","9","D","w"}, max |-> 4],
+                      [tpl |-> TAcj,  alpha |-> {"s","a","K:trim","q","d","m"}, max |-> 5],
+                      [tpl |-> TQcj,  alpha |-> {"d","K:trim","w","s","a"}, max |-> 5],
+                      [tpl |-> TCte,  alpha |-> WsAll \cup {"r"}, max |-> 3],
+                      [tpl |-> TPh,   alpha |-> {"P", "P1", "w", "_", "J"}, max |-> 3],
+                      [tpl |-> TJoin, alpha |-> WsAll \cup {"r"}, max |-> 4],
+                      [tpl |-> TSubq, alpha |-> WsAll \cup {"r"}, max |-> 3],
                       [tpl |-> TBdb,  alpha |-> LitA, max |-> 5],
                       [tpl |-> TAdb,  alpha |-> CmtB \cup CmtL, max |-> 4] >>
 =============================================================================
